@@ -211,8 +211,19 @@ let throttle = function
        Hashtbl.replace known_seen id k;
        if k <= 3 then Some reason else None)
 
+(* inputs cut into pieces by the shrinker of bin/check may be malformed: they are not cases *)
+let well_formed inp =
+  try (match words inp with
+    | [("D" | "A" | "S"); l; r; fi; cs] ->
+      ignore (unhexs l); ignore (unhexs r); ignore (dec_fi fi);
+      List.for_all (fun c -> ignore c.M.edits; true) (dec_chunks cs)
+    | "G" :: k :: rest -> List.length (triples rest) = int_of_string k && List.length rest = 3 * int_of_string k
+    | ["T"; _; t] -> ignore (unhex t); true
+    | _ -> false)
+  with _ -> false
+
 let spec prop inp out =
-  if prop <> "C14" then None else
+  if prop <> "C14" || not (well_formed inp) then None else
   throttle (match words inp with
   | "D" :: _ -> spec_d inp out
   | "A" :: _ -> spec_a inp out
